@@ -4,13 +4,48 @@ lock step; the extracted `accept` automaton must accept the implementation's mec
 trace, snapshots included) + wire-level property oracle on the implementation's streams."""
 import hashlib
 import json
+import os
 
 import ltv
 from gen import c04 as G
 
 
+# One probe case per structural repair flag (ROBUSTNESS.md rule 3): the flag is what the COMPILED code does on the case.
+PROBES = {
+    "update_interested_queues": "plen=16384 files=147457,30000 done=00000000000 seed=39033 | J:0:- U:0 W:0:1 H:0:9 A:3 Q:0",
+    "have_listed_raises": "plen=32768 files=98304 done=110 seed=5 | J:0:111 U:0 X:0 J:0:- U:0 Q:0",
+    "choked_checks_stalled": "plen=16384 files=49152 done=000 seed=7 | J:0:100 U:0 A:250 K:0 U:0 Q:0",
+    "pipe_counts_valid": "plen=16384 files=49152 done=001 seed=7 | J:0:100 U:0 J:1:100 U:1 A:31 P:0:0 Q:1",
+    "choke_restores_interest": "plen=32768 files=100000,200000 done=0000000000 seed=3 dslots=1 | J:0:1111111111 J:1:1111111111 U:1 A:31 U:0 A:31 A:31 K:1 U:1 X:0 Q:1",
+    # not a model flag (the acceptor takes the unordered timer as an observed event): recorded in the evidence only
+    "stale_unordered_timer_repaired": "plen=32768 files=100000,200000 done=0000000000 seed=3 | J:0:1111111111 U:0 P:0:1 K:0 U:0 A:40 P:0:1 A:25 P:0:1 A:5 P:0:0 P:0:0 A:31 Q:0",
+}
+
+
+def run_probes(impl):
+    names = sorted(PROBES)
+    out = ltv.run_sharded(impl, [PROBES[n] for n in names], shards=len(names), timeout=300)
+    res = {}
+    for n, o in zip(names, out + ["MISSING"] * len(names)):
+        if not o.startswith("ev="):
+            continue                       # no decision: params fall back to the source text
+        if n == "stale_unordered_timer_repaired":
+            res[n] = not any(k == "unordered-stale-position-rerequest" for k, _ in G.oracle(PROBES[n], o))
+        else:
+            res[n] = " done=1 " in o
+    path = os.path.join(ltv.BUILD, "c04_probe_%s.json" % ltv.repo_tree_hash())
+    tmp = path + ".%d.tmp" % os.getpid()
+    with open(tmp, "w") as f:
+        json.dump(res, f)
+    os.replace(tmp, path)
+    return res
+
+
 def run(rep, tier, seed, replay):
+    impl = ltv.build_harness("c04", ["c04.cc", "common/session.cc"])
+    probes = run_probes(impl)             # before the Coq build: gen/params_c04.py reads them
     coq = ltv.coq_build("C04")
+    rep.cov.update(repair_flags_probed=probes)
     rep.cov.update(obligations=coq["obligations"], discharged=coq["discharged"], checker_cmd=coq["checker_cmd"],
                    theorems=coq["theorems"], axioms_per_theorem=coq["axioms"],
                    trusted_base=ltv.std_trusted_base(coq, [
@@ -28,7 +63,6 @@ def run(rep, tier, seed, replay):
                        "choice inside the delegate relation), hashing (conforming peers: hash always succeeds), timers (observed)",
                        "python wire-level oracle gen/c04.py:oracle evaluated on the implementation's output"]))
     model = ltv.build_model("C04")
-    impl = ltv.build_harness("c04", ["c04.cc", "common/session.cc"])
     # policy probe: the pipe-size function of the compiled code; side condition of Section PipePolicy: pipe >= 1
     pr = ltv.run_sharded(impl, ["probe-pipe"], shards=1, timeout=120)
     probe = pr[0] if pr else "MISSING"
@@ -57,7 +91,7 @@ def run(rep, tier, seed, replay):
         stats = {"replay": 1}
     else:
         cases, stats = G.gen(seed, tier)
-    io = ltv.run_sharded(impl, cases, timeout=1500)
+    io = ltv.run_sharded(impl, cases, timeout=1500, env={"LTV_CASE_TIMEOUT": "30" if tier == "quick" else "60"})
     io = [io[i] if i < len(io) else "MISSING" for i in range(len(cases))]
     mo = ltv.run_sharded(model, [x if x.startswith("ev=") else "NOTRACE-INPUT" for x in io])
     nontrivial, mism, samples = set(), 0, []
